@@ -293,8 +293,8 @@ func (*Reader).readV2
     ensures[corrupt]   position < rdL(r) && err != nil ==> is(err, ErrCorrupted) && !is(err, io.EOF)
     ensures[failed]    err != nil ==> nextPosition == -1
     // proof hints at the success return: the compared trailer bytes, and the payload bytes as read
-    assert[h_trailer] forall k :: 0 <= k && k < 8 ==> abs(payload, base(payload) + trailerOff + k) == abs(trailerMagicData, base(trailerMagicData) + k) at return 10
-    assert[h_payload] forall j :: base(payload) + 24 <= j && j < base(payload) + len(payload) ==> abs(payload, j) == rdB(r)[old(position) + 28 + j - base(payload) - 24] at return 10
+    assert[h_trailer] forall k :: 0 <= k && k < 8 ==> abs(payload, base(payload) + trailerOff + k) == abs(trailerMagicData, base(trailerMagicData) + k) at return last
+    assert[h_payload] forall j :: base(payload) + 24 <= j && j < base(payload) + len(payload) ==> abs(payload, j) == rdB(r)[old(position) + 28 + j - base(payload) - 24] at return last
 
 
 pred ksV1(b map[int]int, p int) := be32(b, p+16)
